@@ -3,7 +3,7 @@
    The one theorem: both back-ends run the SAME Python stages after nodes (load) and before nodes (dump). *)
 From Coq Require Import List String Bool.
 Import ListNotations.
-Require Import Registry GenHistory CallGraph GenCalls Dispatch Confinement ConfineLemmas.
+Require Import Registry GenHistory CallGraph GenCalls Dispatch Confinement ConfineLemmas ConfineC.
 Open Scope string_scope.
 
 (* KIND C06_c_classes_share_python_stages : F *)
